@@ -202,6 +202,27 @@ pub fn run(args: &[String]) {
                     writeln!(out, "DETAILS {c} {s} {line}").unwrap();
                 }
             }
+            // the NLRI type a typed iterator reports (and carries into NlriEnumIter) is the one of its family *and* ADD-PATH-ness
+            {
+                use routecore::bgp::nlri::afisafi::{NlriIter, NlriEnumIter, Nlri};
+                let raw: Vec<u8> = vec![0, 0, 0, 1, 24, 10, 0, 1];
+                macro_rules! it { ($ctor:ident, $fam:expr, $ap:expr) => {{
+                    let i = NlriIter::$ctor(octseq::Parser::from_ref(&raw));
+                    let want = NlriType::from(($fam, $ap));
+                    let got = i.nlri_type();
+                    let en: NlriEnumIter<_> = i.into();
+                    let first = crate::util::guard(|| en.map(|r| r.map(|n: Nlri<_>| n.nlri_type())).next());
+                    writeln!(out, "ITNT {} {}", stringify!($ctor), if got == want && (!$ap || matches!(first, Some(Some(Ok(t))) if t == want)) { "ok".to_string() }
+                        else { format!("DIFF:{:?}", got) }).unwrap();
+                }} }
+                it!(ipv4_unicast, AfiSafiType::Ipv4Unicast, false);
+                it!(ipv4_unicast_addpath, AfiSafiType::Ipv4Unicast, true);
+                it!(ipv4_multicast_addpath, AfiSafiType::Ipv4Multicast, true);
+                let raw: Vec<u8> = vec![0, 0, 0, 1, 32, 0x20, 1, 0x0d, 0xb8];
+                it!(ipv6_unicast, AfiSafiType::Ipv6Unicast, false);
+                it!(ipv6_unicast_addpath, AfiSafiType::Ipv6Unicast, true);
+                it!(ipv6_multicast_addpath, AfiSafiType::Ipv6Multicast, true);
+            }
             // the Send/Receive octet of an ADD-PATH capability entry, read through OpenMessage::addpath_families_vec: a defined
             // direction is reported as such, an undefined one is an error of the whole call - never an entry that quietly disappears
             for d in 0..=255u8 {
